@@ -219,6 +219,9 @@ def check_case(case, col=None, logs=None):
         # the child leaves after having received everything that was typed (filtered)
         actions += [['rec', len(want_child)], ['s', 0.05], ['exit', 0]]
     else:
+        if esc_hit:
+            # a second interact() session follows the first one
+            actions += [['recuntil', dialogue.trig(1).hex()], ['w', b'SECOND-OUTPUT'.hex()]]
         actions += [['recuntil', dialogue.END.hex()]]
     um, us = os.openpty()
     reclogs = {}
@@ -302,6 +305,46 @@ def check_case(case, col=None, logs=None):
             if mode_after != mode_before:
                 diff = [i for i in range(7) if mode_after[i] != mode_before[i]]
                 raise Violation('terminal-mode-not-restored', 'termios fields %r of the user terminal differ after interact()' % diff)
+            second = b''
+            if esc_hit and child.isalive():
+                # interact() again on the same object: only output not yet shown may appear (the pending text of
+                # the first session must not come back), and the session ends at the escape character again
+                result2 = {}
+
+                def run2():
+                    try:
+                        child.interact(escape_character=esc_arg, input_filter=in_f, output_filter=out_f)
+                        result2['ok'] = True
+                    except BaseException as e:      # noqa
+                        result2['exc'] = e
+                th2 = threading.Thread(target=run2, daemon=True)
+                th2.start()
+                t0 = time.time()
+                while time.time() - t0 < 10 and (termios.tcgetattr(us)[3] & termios.ICANON) and th2.is_alive():
+                    time.sleep(0.002)
+                os.write(child.child_fd, dialogue.trig(1))
+                second = b'SECOND-OUTPUT'
+                all_out = pending + (out_f(b''.join(case['outs']) + second) if out_f else b''.join(case['outs']) + second)
+                t0 = time.time()
+                while time.time() - t0 < 5 and len(b''.join(seen)) < len(all_out):
+                    drain(um, seen, 0.01)
+                os.write(um, escape)
+                join_draining(th2, um, seen, 15)
+                if th2.is_alive():
+                    raise Violation('interact-did-not-return', 'the second interact() did not return within 15 s after the escape character')
+                drain(um, seen, 0.05)
+                if 'exc' in result2:
+                    raise Violation('interact-raised:second', 'the second interact() raised %r' % (result2['exc'],))
+                got_all = b''.join(seen)
+                if got_all != all_out:
+                    k = 0
+                    while k < min(len(got_all), len(all_out)) and got_all[k] == all_out[k]:
+                        k += 1
+                    raise Violation('output-not-transparent:second-session', 'after a second interact() the user terminal has received %d '
+                                    'bytes in total, pending text + child output is %d bytes; first difference at %d: got %r, expected %r'
+                                    % (len(got_all), len(all_out), k, got_all[k:k + 20], all_out[k:k + 20]))
+                if termios.tcgetattr(us) != mode_before:
+                    raise Violation('terminal-mode-not-restored', 'terminal mode differs after the second interact()')
             # what the child got
             if esc_hit and not (case['child_exits'] and False):
                 try:
@@ -321,6 +364,7 @@ def check_case(case, col=None, logs=None):
                         break
             rec = ps.received()
             rec = rec.replace(dialogue.trig(0), b'', 1)
+            rec = rec.replace(dialogue.trig(1), b'', 1)
             if rec.endswith(dialogue.END):
                 rec = rec[:-len(dialogue.END)]
             if rec != want_child:
@@ -336,6 +380,9 @@ def check_case(case, col=None, logs=None):
             want_user = pending + (out_f(out_all) if out_f else out_all)
             got_user = b''.join(seen)
             full_output_expected = not esc_hit      # with an escape the session may end before all output was copied
+            if second:
+                full_output_expected = False     # already compared in full above
+                want_user = all_out
             if full_output_expected:
                 if got_user != want_user:
                     k = 0
